@@ -102,6 +102,90 @@ func (in *Interp) contains(s *StrV, pat string, what string) bool {
 	return false
 }
 
+// decodeRune mirrors utf8.DecodeRuneInString at byte position i of a string of
+// concrete length n: the executor branches on the UTF-8 class of the lead byte
+// and on the validity of the continuation bytes; the rune itself stays symbolic.
+func (in *Interp) decodeRune(s *StrV, i, n int) (*Term, int) {
+	b0 := s.at(i)
+	inRange := func(b *Term, lo, hi int64) *Term {
+		return And(Cmp("bvule", BV(8, lo), b), Cmp("bvule", b, BV(8, hi)))
+	}
+	if in.branch(Cmp("bvult", b0, BV(8, 0x80))) {
+		return ZExt(b0, 32), 1
+	}
+	bad := BV(32, 0xFFFD)
+	low := func(b *Term, mask int64) *Term { return ZExt(Bin("bvand", b, BV(8, mask)), 32) }
+	shl := func(t *Term, k int64) *Term { return Bin("bvshl", t, BV(32, k)) }
+	cont := func(k int, lo, hi int64) bool {
+		return i+k < n && in.branch(inRange(s.at(i+k), lo, hi))
+	}
+	switch {
+	case in.branch(inRange(b0, 0xC2, 0xDF)):
+		if !cont(1, 0x80, 0xBF) {
+			return bad, 1
+		}
+		return Bin("bvor", shl(low(b0, 0x1F), 6), low(s.at(i+1), 0x3F)), 2
+	case in.branch(inRange(b0, 0xE0, 0xEF)):
+		lo, hi := int64(0x80), int64(0xBF)
+		if in.branch(Eq(b0, BV(8, 0xE0))) {
+			lo = 0xA0
+		} else if in.branch(Eq(b0, BV(8, 0xED))) {
+			hi = 0x9F
+		}
+		if !cont(1, lo, hi) || !cont(2, 0x80, 0xBF) {
+			return bad, 1
+		}
+		return Bin("bvor", Bin("bvor", shl(low(b0, 0x0F), 12), shl(low(s.at(i+1), 0x3F), 6)), low(s.at(i+2), 0x3F)), 3
+	case in.branch(inRange(b0, 0xF0, 0xF4)):
+		lo, hi := int64(0x80), int64(0xBF)
+		if in.branch(Eq(b0, BV(8, 0xF0))) {
+			lo = 0x90
+		} else if in.branch(Eq(b0, BV(8, 0xF4))) {
+			hi = 0x8F
+		}
+		if !cont(1, lo, hi) || !cont(2, 0x80, 0xBF) || !cont(3, 0x80, 0xBF) {
+			return bad, 1
+		}
+		r := Bin("bvor", shl(low(b0, 0x07), 18), shl(low(s.at(i+1), 0x3F), 12))
+		r = Bin("bvor", r, shl(low(s.at(i+2), 0x3F), 6))
+		return Bin("bvor", r, low(s.at(i+3), 0x3F)), 4
+	}
+	return bad, 1
+}
+
+// unicode.IsSpace on a symbolic rune
+func (in *Interp) isSpaceRune(r *Term) bool {
+	eq := func(v int64) *Term { return Eq(r, BV(32, v)) }
+	c := Or(And(Cmp("bvule", BV(32, 9), r), Cmp("bvule", r, BV(32, 13))), eq(32))
+	for _, v := range []int64{0x85, 0xA0, 0x1680, 0x2028, 0x2029, 0x202F, 0x205F, 0x3000} {
+		c = Or(c, eq(v))
+	}
+	c = Or(c, And(Cmp("bvule", BV(32, 0x2000), r), Cmp("bvule", r, BV(32, 0x200A))))
+	return in.branch(c)
+}
+
+func (in *Interp) fields(s *StrV) *SliceG {
+	n := in.strLenConst(s, "strings.Fields")
+	var parts []*StrV
+	start := -1
+	for i := 0; i < n; {
+		r, w := in.decodeRune(s, i, n)
+		if in.isSpaceRune(r) {
+			if start >= 0 {
+				parts = append(parts, s.sub(start, i))
+				start = -1
+			}
+		} else if start < 0 {
+			start = i
+		}
+		i += w
+	}
+	if start >= 0 {
+		parts = append(parts, s.sub(start, n))
+	}
+	return in.strSlice(parts)
+}
+
 func (in *Interp) stringsIntrinsic(name string, args []Value) (Value, bool) {
 	str := func(i int) *StrV { return args[i].(*StrV) }
 	cst := func(i int) string { return strConst(args[i].(*StrV)) }
@@ -114,6 +198,8 @@ func (in *Interp) stringsIntrinsic(name string, args []Value) (Value, bool) {
 		return in.trim(str(0), cst(1), true, false, name), true
 	case "strings.Trim":
 		return in.trim(str(0), cst(1), true, true, name), true
+	case "strings.Fields":
+		return in.fields(str(0)), true
 	case "strings.Split":
 		return in.split(str(0), cst(1), -1, name), true
 	case "strings.SplitN":
